@@ -102,6 +102,8 @@ def run_retry(case):
                 link_open = cf.link is not None
                 if kind == 'req':
                     r = reqs[arg]
+                    if r.get('after') is not None and r['after'] not in dispatched:
+                        continue    # only meaningful once the earlier request with the same expectation has been answered
 
                     def do_send(arg=arg, r=r):
                         pk = CRTPPacket()
@@ -271,6 +273,15 @@ def retry_case(draw):
             reply = {'lost': lost, 'delay': delay, 'tail': draw(st.sampled_from([[0xE0 + i], [0xE0 + i], []]))}
         reqs.append({'t': draw(st.sampled_from([0.0, 0.0, 0.05, 0.1, 0.3, 1.0])), 'port': p, 'channel': c, 'data': data, 'expected': expected,
                      'timeout': T, 'reply': reply})
+    if draw(st.sampled_from([False, False, True])):
+        # the same expectation again, shortly after an earlier request with it was answered (before that one's timeout has passed)
+        quick = [r for r in reqs if r['expected'] and r['reply'] and r['reply']['lost'] == 0 and r['reply']['delay'] <= 0.05]
+        if quick:
+            base = quick[draw(st.integers(0, len(quick) - 1))]
+            i = len(reqs)
+            reqs.append({'t': base['t'] + draw(st.sampled_from([0.06, 0.1, 0.15])), 'port': base['port'], 'channel': base['channel'],
+                         'data': list(base['expected']) + [0x50, i], 'expected': list(base['expected']), 'timeout': base['timeout'], 'after': reqs.index(base),
+                         'reply': draw(st.sampled_from([None, {'lost': 0, 'delay': 0.3, 'tail': [0xD0]}, {'lost': 1, 'delay': 0.01, 'tail': [0xD1]}]))})
     events = []
     mode = draw(st.sampled_from(['none', 'none', 'close', 'close-reopen', 'error-reopen', 'close-reopen']))
     if mode != 'none':
